@@ -4,6 +4,7 @@ From Coq Require Import List ZArith.
 Require Import Avro.Model.Base Avro.Model.Prim Avro.Model.Schema Avro.Model.GoType
                Avro.Model.Spec Avro.Model.Codec Avro.Model.Denote.
 Require Import Avro.Proofs.Wire Avro.Proofs.BuildP Avro.Proofs.ReadP Avro.Proofs.ProjectP.
+Require Import Avro.Proofs.LayoutP Avro.Proofs.ProjectSimP Avro.Proofs.ProjectBuildP.
 Import ListNotations.
 Open Scope Z_scope.
 
@@ -48,6 +49,62 @@ Theorem C04_added_fields_untouched : forall fs ds vs vs' j,
 Proof. exact untargeted_unchanged. Qed.
 Print Assumptions C04_added_fields_untouched.
 
+(* Projection at any nesting depth, through the codec builder.
+
+   [tsub strict tB tA] (Proofs/ProjectBuildP.v): tB is tA with struct fields —
+   selected by their record name — deleted or reordered, at any depth behind
+   pointers, slices, map values and defined types; with [strict = false] fields
+   may also have been added.  Fields present on both sides keep their omitempty
+   flag and have related types.  [sok s]: record field names are distinct (as
+   Avro requires) and unions are of the nullable two-branch form.
+   [vproj cB cA vB vA] (Proofs/ProjectSimP.v): every field that has a target
+   on both sides holds related values, recursively; equality at leaves.
+
+   For any sane registry, schema in scope, related target types, and datum:
+   if the full target decodes the datum (into a zero value), then
+   - with fields only deleted / reordered the projected target decodes it too, and
+   - whenever the other target decodes it, every field that remains holds the
+     same value as in the full decode, at every depth. *)
+Theorem C04_projection_any_depth : forall strict reg s tB tA om cA cB d vA,
+  reg_sane reg -> sok s -> tsub strict tB tA ->
+  build reg s (Some tA) om = Some cA -> build reg s (Some tB) om = Some cB ->
+  apply_datum cA (zero_of tA) d = Some vA ->
+  (strict = true -> exists vB, apply_datum cB (zero_of tB) d = Some vB) /\
+  (forall vB, apply_datum cB (zero_of tB) d = Some vB -> vproj cB cA vB vA).
+Proof. exact projection_any_depth. Qed.
+Print Assumptions C04_projection_any_depth.
+
+(* the two halves it is made of: the builder yields related codec trees and
+   related zero destinations; related trees decode to related values from any
+   related destinations (not only zero ones) *)
+Theorem C04_builder_yields_related_trees : forall strict reg, reg_sane reg -> forall s, sok s ->
+  forall tB tA om cA cB, tsub strict tB tA ->
+  build reg s (Some tA) om = Some cA -> build reg s (Some tB) om = Some cB ->
+  cproj strict cB cA /\ vproj cB cA (zero_of tB) (zero_of tA).
+Proof. intros strict reg Hreg s Hok. exact (build_proj strict reg Hreg s Hok). Qed.
+Print Assumptions C04_builder_yields_related_trees.
+
+Theorem C04_related_trees_decode_alike : forall strict cA cB destB destA d vA,
+  cproj strict cB cA -> vproj cB cA destB destA -> apply_datum cA destA d = Some vA ->
+  (strict = true -> exists vB, apply_datum cB destB d = Some vB) /\
+  (forall vB, apply_datum cB destB d = Some vB -> vproj cB cA vB vA).
+Proof. intros strict cA cB. exact (project_sim strict cA cB). Qed.
+Print Assumptions C04_related_trees_decode_alike.
+
+(* the relation is reflexive, and holds between struct types whose same-named fields are related *)
+Theorem C04_tsub_refl : forall strict t, tsub strict t t.
+Proof. exact tsub_refl. Qed.
+Print Assumptions C04_tsub_refl.
+
+Theorem C04_tsub_by_field_names : forall strict nB pB fsB nA pA fsA,
+  (forall fB fA, In fB fsB -> In fA fsA -> name_for_field fB = name_for_field fA ->
+     omit_empty fB = omit_empty fA /\ tsub strict (gf_type fB) (gf_type fA)) ->
+  (strict = true -> forall fB, In fB fsB -> name_for_field fB <> dash ->
+     exists fA, In fA fsA /\ name_for_field fA = name_for_field fB) ->
+  tsub strict (TStruct nB pB fsB) (TStruct nA pA fsA).
+Proof. exact ts_struct_pairs. Qed.
+Print Assumptions C04_tsub_by_field_names.
+
 (* non-vacuity: a record with a size-prefixed multi-block array followed by a
    further field, decoded, projected onto a struct lacking the array, and skipped *)
 Example C04_ex :
@@ -59,3 +116,33 @@ Example C04_ex :
              c_read 50 c (zero_of t) bs = Done (VStruct [VStr [120]]) [9] /\
              c_skip 50 c bs = Done tt [9]).
 Proof. cbv zeta. split; [vm_compute; reflexivity|]. eexists. split; [vm_compute; reflexivity|]. split; vm_compute; reflexivity. Qed.
+
+(* non-vacuity of the any-depth statement: the types of [tsub_example] (a field
+   deleted, the others reordered, and a field deleted inside the slice's element
+   struct), one schema, one datum: both codecs build, both decodes succeed, and the
+   results are what the relation says *)
+Example C04_depth_ex :
+  let inner_full := TStruct [73] [] [GF [88] true [120] [] (TInt I64); GF [89] true [121] [] TString] in
+  let inner_less := TStruct [74] [] [GF [89] true [121] [] TString] in
+  let tA := TStruct [65] [] [GF [65] true [97] [] (TPtr TString); GF [66] true [98] [] (TInt I64);
+                             GF [68] true [100] [] (TSlice inner_full)] in
+  let tB := TStruct [66] [] [GF [68] true [100] [] (TSlice inner_less); GF [65] true [97] [] (TPtr TString)] in
+  let s := SRecord [([97], SUnion [SNull; SString]); ([98], SLong LtNone);
+                    ([100], SArray (SRecord [([120], SLong LtNone); ([121], SString)]))] in
+  let d := DRecord [DUnion 1 (DString [104; 105]); DLong 7; DArray [DRecord [DLong 1; DString [112]]; DRecord [DLong 2; DString [113]]]] in
+  tsub true tB tA /\ sok s /\
+  exists cA cB, build reg_std s (Some tA) false = Some cA /\ build reg_std s (Some tB) false = Some cB /\
+    apply_datum cA (zero_of tA) d =
+      Some (VStruct [VPtr (Some (VStr [104; 105])); VInt 7; VSlice [VStruct [VInt 1; VStr [112]]; VStruct [VInt 2; VStr [113]]]]) /\
+    apply_datum cB (zero_of tB) d =
+      Some (VStruct [VSlice [VStruct [VStr [112]]; VStruct [VStr [113]]]; VPtr (Some (VStr [104; 105]))]).
+Proof.
+  cbv zeta. split; [exact tsub_example|]. split.
+  - apply sok_record; [repeat constructor; cbn; intuition congruence|].
+    apply Forall_cons; [|apply Forall_cons; [|apply Forall_cons; [|apply Forall_nil]]]; cbn [snd].
+    + apply sok_null_first. apply sok_leaf. exact I.
+    + apply sok_leaf. exact I.
+    + apply sok_array. apply sok_record; [repeat constructor; cbn; intuition congruence|].
+      apply Forall_cons; [|apply Forall_cons; [|apply Forall_nil]]; cbn [snd]; apply sok_leaf; exact I.
+  - eexists. eexists. repeat split; vm_compute; reflexivity.
+Qed.
